@@ -1,5 +1,4 @@
-import GmQuic.Model.ParamsDec
-import GmQuic.Lemmas.FrameRd
+import GmQuic.Lemmas.ParamsDec
 /-!
 C03, part 3: the peer's transport-parameter blob (`Parameters::<R>::parse_from_bytes`,
 `ServerParameters::try_from_remembered_bytes`, `be_preferred_address`) for ALL byte strings and both roles.
@@ -7,114 +6,9 @@ C03, part 3: the peer's transport-parameter blob (`Parameters::<R>::parse_from_b
 namespace GmQuic.Props.C03
 open GmQuic.Wire GmQuic.Codec GmQuic.Params GmQuic.ParamsDec GmQuic.PacketDec GmQuic.FrameRd GmQuic.Gen.Params
 
-private theorem pResetToken_good (bs : Bytes) (n : Nat) (h : bs.length ≤ n) : Good (pResetToken bs) n := by
-  unfold pResetToken
-  cases ht : pTakeC 16 bs with
-  | ok t r =>
-    have hg := (pTakeC_good 16 bs n h).2 t r ht
-    unfold pTakeC at ht
-    split at ht
-    · cases ht
-    · cases ht
-      simp only [Res.bind]
-      have : ¬ ((List.take 16 bs).length != 16) = true := by simp; omega
-      rw [if_neg this]; exact good_ok _ _ _ hg
-  | err k => exact good_err _ _
-  | panic s => exact absurd ht (pTakeC_np 16 bs s)
-
-private theorem pPreferred_good (bs : Bytes) (n : Nat) (h : bs.length ≤ n) : Good (pPreferred bs) n := by
-  unfold pPreferred
-  cases h1 : pTakeS 6 bs with
-  | err k => exact good_err _ _
-  | panic s => exact absurd h1 (pTakeS_np 6 bs s)
-  | ok v4 r1 =>
-    have e1 := pTakeS_ok _ _ _ _ h1
-    simp only [Res.bind]
-    rw [if_neg (by omega)]
-    cases h2 : pTakeS 18 r1 with
-    | err k => exact good_err _ _
-    | panic s => exact absurd h2 (pTakeS_np 18 r1 s)
-    | ok v6 r2 =>
-      have e2 := pTakeS_ok _ _ _ _ h2
-      simp only
-      rw [if_neg (by omega)]
-      apply good_bind (pCid_good r2 n (by omega)); intro cid r3 h3
-      apply good_bind (pResetToken_good r3 n h3); intro tok r4 h4
-      exact good_ok _ _ _ h4
-
 /-- `be_preferred_address` never panics (slice indexing and `copy_from_slice` are guarded by the `take`s). -/
 theorem preferred_address_no_panic (bs : Bytes) : ∀ site, pPreferred bs ≠ .panic site :=
   (pPreferred_good bs bs.length (Nat.le_refl _)).1
-
-private theorem pValue_good (ty : Ty) (bs : Bytes) : Good (pValue ty bs) bs.length := by
-  unfold pValue
-  cases ty with
-  | varint => exact good_map (pVarint_good bs _ (Nat.le_refl _))
-  | duration => exact good_map (pVarint_good bs _ (Nat.le_refl _))
-  | boolean => exact good_ok _ _ _ (Nat.le_refl _)
-  | bytes => exact good_ok _ _ _ (by simp)
-  | resetToken => exact good_map (pResetToken_good bs _ (Nat.le_refl _))
-  | connectionId =>
-    simp only
-    split
-    · exact good_err _ _
-    · rename_i hc
-      unfold GmQuic.Gen.C03.maxCidSize at hc
-      rw [if_neg (by omega)]; exact good_ok _ _ _ (by simp)
-  | preferredAddress => exact good_map (pPreferred_good bs _ (Nat.le_refl _))
-
-private theorem parseOne_spec (r : Role) (buf : Bytes) (acc : PMap) :
-    (∀ s, parseOne r buf acc ≠ .panic s) ∧ (∀ a rest, parseOne r buf acc = .ok (a, rest) → rest.length < buf.length) := by
-  unfold parseOne
-  cases h1 : pVarint buf with
-  | panic s => exact absurd h1 (pVarint_np buf s)
-  | err k => exact ⟨fun s h => (by cases h), fun a rest h => (by cases h)⟩
-  | ok id b1 =>
-    have l1 := pVarint_lt buf id b1 h1
-    simp only
-    have hg : Good ((pVarint b1).bind fun n r => pTakeS n r) b1.length :=
-      good_bind (pVarint_good b1 _ (Nat.le_refl _)) (fun n r hr => pTakeS_good n r _ hr)
-    cases h2 : (pVarint b1).bind (fun n r => pTakeS n r) with
-    | panic s => exact absurd h2 (hg.1 s)
-    | err k => exact ⟨fun s h => (by cases h), fun a rest h => (by cases h)⟩
-    | ok value rest =>
-      have l2 := hg.2 value rest h2
-      simp only
-      cases row? id with
-      | none => exact ⟨fun s h => (by cases h), fun a rest' h => (by cases h; omega)⟩
-      | some row =>
-        simp only
-        split
-        · exact ⟨fun s h => (by cases h), fun a rest h => (by cases h)⟩
-        · have hv := pValue_good row.ty value
-          cases h3 : pValue row.ty value with
-          | panic s => exact absurd h3 (hv.1 s)
-          | err k => exact ⟨fun s h => (by cases h), fun a rest h => (by cases h)⟩
-          | ok v remain =>
-            simp only
-            split
-            · exact ⟨fun s h => (by cases h), fun a rest h => (by cases h)⟩
-            · cases setRow r acc row v with
-              | error e => exact ⟨fun s h => (by cases h), fun a rest h => (by cases h)⟩
-              | ok acc' => exact ⟨fun s h => (by cases h), fun a rest' h => (by cases h; omega)⟩
-
-private theorem loop_np (r : Role) : ∀ fuel buf acc, buf.length < fuel → ∀ s, parseLoopR r fuel buf acc ≠ .panic s := by
-  intro fuel
-  induction fuel with
-  | zero => intro buf acc h; omega
-  | succ fuel ih =>
-    intro buf acc hlen s
-    unfold parseLoopR
-    split
-    · intro h; cases h
-    · have hs := parseOne_spec r buf acc
-      cases h1 : parseOne r buf acc with
-      | ok v =>
-        obtain ⟨a, rest⟩ := v
-        have := hs.2 a rest h1
-        exact ih rest a (by omega) s
-      | err w => intro h; cases h
-      | panic s' => exact absurd h1 (hs.1 s')
 
 /-- **params_no_panic**: parsing a peer's transport-parameter blob never panics and the loop terminates
 (the fuel `len + 1` is never exhausted), for every byte string and either sender role — including every
